@@ -187,8 +187,52 @@ def run(chk):
             chk.check(ok, key + "/slice", "the frame slice is not [14*i, 14*i+14): %s" % (rng,))
     chk.check(kinds == {True, False}, key + "/cases", "cases %s" % kinds)
     chk.sample({"play_iteration_summaries": dict((k, dict((str(a), b) for a, b in v.items())) for k, v in summaries.items())})
+    repositioning(chk, prog, PL, AYp)
     transposition(chk, prog)
     return chk.finish(EXPL)
+
+
+def repositioning(chk, prog, PL, AYp):
+    """Every method other than play that can move the playback position (stores to `frame`): on each of its paths the
+    frame either keeps its value, or the in-frame sample counter is 0 afterwards - otherwise the registers of the frame
+    moved to are not applied at its first sample (update_ay runs only when the counter is 0) and the frame is cut short."""
+    chk.rule("T-PAIR", "a method that moves the frame position (rewind, rewind_loop, set_frame, ...) leaves the in-frame sample counter at 0 on every path that changes the frame")
+    cg, fa = cc.scans(prog)
+    fi = lambda n: prog.field_index(PL, n)
+    movers = set(cc.strip_closure(p) for p in fa.writers(PL, "frame"))
+    movers = sorted(p for p in movers if p.split("::")[-1] not in ("play", "new"))
+    FRM, FS = tm.sym("pl.frame", 64), tm.sym("pl.frame_sample", 64)
+    for p in movers:
+        fn = prog.fn(p)
+        short = p.split("::")[-1]
+        w = Walker(prog)
+        w.effect_hook = lambda w_, st, path, a, d, wh: EffectResult(tm.sym("N", 64), havoc=False) if path.endswith("frames_count") else EffectResult(None, havoc=False)
+        for q in prog.fns:
+            if q.endswith("Vtx::frames_count"):
+                w.opaque_paths.add(q)
+        st = w.new_state()
+        st.store[("h", "pl")] = w.materialise(SymObj("pl", ("adt", PL, (AYp,))), st)
+        nargs = fn.body["argc"]
+        args = [Ref(("h", "pl"), (), True)] + [tm.sym("arg%d" % i, 64) for i in range(1, nargs)]
+        try:
+            rs = w.run(fn, args, genv={"AY": AYp}, state=st)
+        except Exception as e:
+            chk.undecided_("T-PAIR/Player::%s" % short, "could not explore: %s" % e)
+            continue
+        key = "T-PAIR/Player::%s/counter-reset" % short
+        for r in rs:
+            if r.outcome != "return":
+                chk.fail(key + "/paths", "%s %s" % (r.outcome, r.detail))
+                continue
+            pl = r.store[("h", "pl")]
+            f2, c2 = pl.fields[fi("frame")], pl.fields[fi("frame_sample")]
+            moved = f2 is not FRM
+            chk.check((not moved) or (isinstance(c2, T) and c2.is_const() and c2.val == 0), key,
+                      "%s sets the frame to %s but leaves the in-frame sample counter at %s: the registers of that frame are not applied at its first sample" % (
+                          short, tm.show(f2) if isinstance(f2, T) else f2, tm.show(c2) if isinstance(c2, T) else c2))
+            chk.count("reposition-paths")
+    chk.floor("reposition-paths", 4)
+    chk.sample({"frame_movers": [p.split("::")[-1] for p in movers]})
 
 
 def transposition(chk, prog):
